@@ -1,0 +1,39 @@
+//go:build verif
+
+package skl
+
+import "sync/atomic"
+
+// Schedule points of Skiplist.Put for the /verif correspondence harness (engine "sklsched").
+// Put calls verifSklPoint(id) right BEFORE the shared-memory access the id names; the harness
+// installs a function that parks the calling goroutine there, so that concurrent Puts can be
+// run under an explicit schedule and compared, step by step, with the SkipConc Lean model.
+// With no function installed (always, outside the harness engine) a point is an atomic load.
+//
+// Ids (level i = id % 100 where a level is attached):
+const (
+	VerifSklStart     = 0   // entry of Put, before listHeight := s.getHeight()
+	VerifSklSetValue  = 1   // first loop found the key: before prev[i].setValue
+	VerifSklHeightCAS = 2   // before s.height.CompareAndSwap
+	VerifSklCAS       = 300 // +i: before prev[i].casNextOffset on level i (i = 0: the node becomes visible)
+	VerifSklCASFail   = 500 // +i: that CAS failed, before prev/next are recomputed
+	VerifSklRetrySet  = 6   // after a failed CAS the key was found: before prev[i].setValue
+	VerifSklHeight    = 700 // +height: notification (not a schedule point): randomHeight() drew height
+)
+
+var verifSklHook atomic.Pointer[func(id int)]
+
+func verifSklPoint(id int) {
+	if f := verifSklHook.Load(); f != nil {
+		(*f)(id)
+	}
+}
+
+// VerifSetSklHook installs (or, with nil, removes) the schedule-point function.
+func VerifSetSklHook(f func(id int)) {
+	if f == nil {
+		verifSklHook.Store(nil)
+		return
+	}
+	verifSklHook.Store(&f)
+}
